@@ -223,12 +223,13 @@ impl Parser {
 
             match state {
                 StringState::Character => {
-                    if position + characters_to_read > bytes.len() {
-                        return Err(format_unexpected_eof(bytes.len()));
-                    }
+                    let end_position = match position.checked_add(characters_to_read) {
+                        Some(end_position) if end_position <= bytes.len() => end_position,
+                        _ => { return Err(format_unexpected_eof(bytes.len())); }
+                    };
 
-                    characters = Vec::from(&bytes[position..position + characters_to_read]);
-                    position += characters_to_read;
+                    characters = Vec::from(&bytes[position..end_position]);
+                    position = end_position;
                     break;
                 } 
                 StringState::DigitOrSeperator => {
